@@ -282,22 +282,30 @@ class Executor(ResolutionContext):
     ) -> Any:
         resolved_fields = OrderedDict()  # type: Dict[str, Any]
 
-        args = list(self._iterate_fields(parent_type, fields))
+        args = iter(list(self._iterate_fields(parent_type, fields)))
 
         def _next():
-            try:
-                k, f, n = args.pop(0)
-            except IndexError:
-                return resolved_fields
-            else:
+            # Fields whose value is available at once are consumed by the loop
+            # (no recursion, however many there are); the chain only continues
+            # from the callback of a deferred value.
+            for k, f, n in args:
+                order = []  # type: List[str]
 
-                def cb(value):
+                def cb(value, k=k, order=order):
                     resolved_fields[k] = value
+                    order.append("cb")
+                    if order[0] == "cb":
+                        return None  # Called before `map_value` returned.
                     return _next()
 
-                return self.runtime.map_value(
+                pending = self.runtime.map_value(
                     self.resolve_field(parent_type, root, f, n, path + [k]), cb
                 )
+                order.append("loop")
+                if order[0] == "loop":
+                    return pending
+
+            return resolved_fields
 
         return _next()
 
